@@ -13,8 +13,9 @@ def F(items, tags=(), bg=0, name=None, bgp=False):
     return {"tags": list(tags), "bg": bg, "items": list(items), "name": name, "bgp": bgp}
 
 
-def S(n, tags=(), name=None):
-    return {"k": "s", "n": n, "tags": list(tags), "name": name}
+def S(n, tags=(), name=None, rich=False):
+    """rich: the first own step carries a data table, the last one a doc-string (unicode content)."""
+    return {"k": "s", "n": n, "tags": list(tags), "name": name, "rich": rich}
 
 
 def O(n, ex, tags=(), name=None, noptags=False):
@@ -142,6 +143,15 @@ def render_feature(shape, fidx=0, markers=False, indent="  ", blank=0, step_kw=(
                     src = "%s.%d" % (iid, k)
                     emit(ind + indent + "%s do %s" % (step_kw[min(k, 2)] if k < 3 else step_kw[3], src))
                     e.own_steps.append(src)
+                    if it.get("rich") and k == 0:
+                        emit(ind + indent * 2 + "| name | wert |")
+                        emit(ind + indent * 2 + "| Zoë  | a\\|b |")
+                        emit(ind + indent * 2 + "|      | 2    |")
+                    if it.get("rich") and k == it["n"] - 1:
+                        emit(ind + indent * 2 + '"""')
+                        emit(ind + indent * 2 + "erste Zeile ü")
+                        emit(ind + indent * 2 + "  eingerückt & <tag>")
+                        emit(ind + indent * 2 + '"""')
                 e.steps = inherited(container) + e.own_steps
             elif it["k"] == "o":
                 tags = list(it["tags"]) + (["m_" + iid] if markers else []) + ([] if it.get("noptags") else pt(iid))
